@@ -3,6 +3,8 @@ package checks
 import (
 	"errors"
 	"fmt"
+	"github.com/zenon-network/go-zenon/wallet"
+	"math/big"
 	"os"
 	"os/exec"
 	"strconv"
@@ -100,6 +102,21 @@ func runC17(r *simrt.Run) {
 		slots = 60 + t.Choose(200)
 	}
 	probes, checked := 0, 0
+	// the second designated key: valid only while the chain height lies inside a window. Half of the runs
+	// make a harness key that key, with a window inside the run
+	var community *wallet.KeyPair
+	var winFrom, winTo uint64
+	if t.Bool() {
+		community = w.Users[5+t.Choose(5)]
+		winFrom = uint64(2 + t.Choose(25))
+		winTo = winFrom + 1 + uint64(t.Choose(30))
+		o1, o2, o3 := types.CommunitySporkAddress, definition.CommunitySporkAddressStartHeight, definition.CommunitySporkAddressEndHeight
+		types.CommunitySporkAddress, definition.CommunitySporkAddressStartHeight, definition.CommunitySporkAddressEndHeight = community.Address, winFrom, winTo
+		w.OnClose(func() {
+			types.CommunitySporkAddress, definition.CommunitySporkAddressStartHeight, definition.CommunitySporkAddressEndHeight = o1, o2, o3
+		})
+		r.Probe("knob-community-key")
+	}
 
 	sync := func() {
 		pend := fresh
@@ -218,6 +235,24 @@ func runC17(r *simrt.Run) {
 					r.Fail("spork-by-wrong-key", "create", "spork creation by %v was accepted", u.Address)
 				}
 				r.Probe("wrong-key-refused")
+			case 3, 4: // the community key creates a spork, acknowledging the frontier or an older momentum
+				if community == nil {
+					break
+				}
+				tmpl := &nom.AccountBlock{BlockType: nom.BlockTypeUserSend, Address: community.Address, ToAddress: types.SporkContract, TokenStandard: types.ZnnTokenStandard,
+					Amount: big.NewInt(0), Data: definition.ABISpork.PackMethodPanic(definition.SporkCreateMethodName, fmt.Sprintf("community-%d", s), "created by the community key")}
+				if d := uint64([]int{0, 0, 1, 3, 8, 20}[t.Choose(6)]); d > 0 && p.Height() > d+1 {
+					target := p.Height() - d
+					if prev, err := p.Chain.GetFrontierAccountStore(community.Address).Frontier(); err == nil && prev != nil && prev.MomentumAcknowledged.Height > target {
+						target = prev.MomentumAcknowledged.Height
+					}
+					if m, err := p.Chain.GetFrontierMomentumStore().GetMomentumByHeight(target); err == nil && m != nil {
+						tmpl.MomentumAcknowledged = m.Identifier()
+					}
+				}
+				if _, err := w.Submit(p, tmpl); err == nil {
+					r.Probe("community-key-create-sent")
+				}
 			case 2: // second activation of an already activated spork: accepted as a send, must fail at receive
 				for _, sp := range activationOrder {
 					if facts.enforcement[sp.Name] != 0 && t.Bool() {
@@ -237,6 +272,15 @@ func runC17(r *simrt.Run) {
 						continue
 					}
 					send, _ := ms.GetAccountBlockByHash(b.FromBlockHash)
+					if send != nil && community != nil && send.Address == community.Address && len(b.Data) == 8 && common.BytesToUint64(b.Data) == 1 {
+						// a call of the community key took effect: the chain height it was executed at must lie
+						// inside the key's window (whatever momentum the SEND acknowledged)
+						at := b.MomentumAcknowledged.Height
+						if at < winFrom || at >= winTo {
+							r.Fail("spork-by-wrong-key", "community-key-outside-window", "%s by the community key took effect at height %d (its send acknowledged %d); the key is valid in [%d,%d) only", callKey(send), at, send.MomentumAcknowledged.Height, winFrom, winTo)
+						}
+						r.Probe("community-key-call-took-effect-inside-window")
+					}
 					if send == nil || callKey(send) != "spork.ActivateSpork" {
 						continue
 					}
